@@ -100,7 +100,7 @@ func monC16(c *child.Ctx, replay json.RawMessage) {
 	// a delay before the recorder's write (the optional hook named by the property)
 	// widens the window between the last block being handed over and the process exiting
 	hooks := []string{"", "", "@apps/rtcmlogger/main:recorder:write=20000", "@apps/rtcmlogger/main:writeRTCMLog:write=5000", "@apps/rtcmlogger/main:recorder:recv=3000", "y300x3"}
-	n := c.Share(c.Pick(150, 5000))
+	n := c.Share(c.Pick(400, 8000))
 	for i := 0; i < n; i++ {
 		k := loggerCase{ID: c.Batch*100000 + i, Seed: r.Uint64() >> 1, Content: []string{"random", "random", "zeros", "text"}[r.Intn(4)],
 			Stdin: []string{"file", "pipe", "pipe", "pipe-close-at-once"}[r.Intn(4)], Chunk: []int{0, 1000, 8096, 100}[r.Intn(4)], GapUs: []int{0, 300, 3000}[r.Intn(3)],
